@@ -161,7 +161,16 @@ impl RefProp {
                     eprintln!("REJECTED({k}): {text}");
                 }
                 stats.label(&format!("generator: rejected by the checker ({k})"));
-                Verdict::Discard("rejected by the checker")
+                if k == "IO" {
+                    return Verdict::Discard("rejected by the checker");
+                }
+                // the generator only builds programs that are well-typed by the documented rules, and the
+                // reference ran this one: a checker that refuses it misreads a scope or a type somewhere
+                fail(
+                    format!("{}:unexpected-rejection:{k}", self.id),
+                    format!("`{text}`
+  is well-typed (reference: {expected}) but was rejected: {k}"),
+                )
             }
             Outcome::Panic { .. } => fail(
                 format!("{}:{}", self.id, outcome.panic_sig().unwrap_or_default()),
@@ -181,7 +190,10 @@ impl Property for RefProp {
     }
 
     fn gen_case(&self, tape: &mut Tape, _tier: Tier) -> Option<Json> {
-        let built = match case::build(tape, self.profile) {
+        // twins are compared with each other (the reference is only the referee): run-time type tests on
+        // arrays, whose answer depends on how the array was labelled when it was built, are fair game
+        let profile = if self.twin && tape.bool() { self.profile.with_free_dispatch() } else { self.profile };
+        let built = match case::build(tape, profile) {
             Ok(b) => b,
             Err(Skip::Unspecified) | Err(Skip::Budget) | Err(Skip::Unsupported(_)) => return None,
         };
